@@ -17,6 +17,7 @@ import (
 	"os"
 	"os/signal"
 	"path/filepath"
+	"runtime"
 	"sort"
 	"strings"
 	"sync"
@@ -34,7 +35,8 @@ func (runnerM) Run() int { return realMain() }
 
 func main() {
 	testing.Init()
-	testscript.Main(runnerM{}, map[string]func(){helperName: helperMain})
+	// RunMain (which wraps every command and hands over to Main): the helper RETURNS its status
+	os.Exit(testscript.RunMain(runnerM{}, map[string]func() int{helperName: helperRet}))
 }
 
 type runner struct {
@@ -495,26 +497,103 @@ func (rn *runner) runAll(cases []*Case, pls []*Planted) {
 	}
 }
 
-// measureHostConds asks the implementation for the value of every built-in condition used.
+// measureHostConds: a direct oracle on the implementation.  Every predefined condition of the
+// universe (conds.go) is evaluated by testscript under both polarities -- `[c] mkdir mark_i`
+// and `[!c] mkdir mark_j` -- and must have the value the independent reading of doc.go gives it:
+// exactly one of the two directories exists, and it is the right one.  Names that only look like
+// predefined conditions must be unknown conditions (the line fails) without Params.Condition and
+// must go to Params.Condition with it.  The independent values then become hostConds.
 func (rn *runner) measureHostConds() {
-	c := &Case{ID: "hostconds", Cmds: true, Kind: "setup"}
-	for _, n := range hostCondNames {
-		c.Lines = append(c.Lines, fmt.Sprintf("[%s] probe %s", n, n))
+	names := condUniverse()
+	for _, n := range names {
+		if v, known := indepCond(n); known {
+			hostConds[n] = v
+		}
+	}
+	c := &Case{ID: "hostconds", Kind: "conditions", Coe: true}
+	for i, n := range names {
+		c.Lines = append(c.Lines, fmt.Sprintf("[%s] mkdir $WORK/mark_%d", n, 2*i+1), fmt.Sprintf("[!%s] mkdir $WORK/mark_%d", n, 2*i+2))
 	}
 	dir := rn.freshDir(c.ID)
 	o := runImpl(c, dir)
 	cleanup(dir)
-	for _, p := range o.Probes {
-		f := strings.Split(p, "|")
-		hostConds[string(common.UnHex(f[1]))] = true
+	saveEnvTemplate(o)
+	got := map[int]bool{}
+	for _, n := range markerLines(o.Tree) {
+		got[n] = true
 	}
-	for _, n := range hostCondNames {
-		if !hostConds[n] {
-			hostConds[n] = false
+	failed := map[int]bool{}
+	for _, n := range o.FailLines {
+		failed[n] = true
+	}
+	report := func(n, what string, small *Case) {
+		rn.res.Count("oracle-fails:builtin-condition-value")
+		ex := evaluate(small)
+		r := rn.run(small)
+		rn.res.Violate(common.Violation{Kind: "impl-violation", Oracle: "builtin-condition-value", Input: rn.input(small), Key: "cond:" + n,
+			Impl:   fmt.Sprintf("verdict=%s FAIL-lines=%v markers=%v", r.o.Verdict, r.o.FailLines, markerLines(r.o.Tree)),
+			Model:  fmt.Sprintf("independent reading of doc.go on %s/%s, %s: %s; expected verdict=%s markers=%v", runtime.GOOS, runtime.GOARCH, runtime.Version(), what, ex.Verdict, markerLines(ex.Tree)),
+			Detail: "property C01: a command whose [condition] guard holds must run, one whose guard does not hold must not\nlog:\n" + tail(r.o.Log, 600)})
+	}
+	nBad := 0
+	for i, n := range names {
+		v, known := hostConds[n]
+		if !known {
+			continue
+		}
+		if rn.prop == "C01" {
+			rn.res.Count("conditions:predefined-checked-both-polarities")
+			rn.res.Case("cond|"+n, true)
+		}
+		pos, neg := got[2*i+1], got[2*i+2]
+		if (pos != v || neg == v || failed[2*i+1] || failed[2*i+2]) && nBad < 6 {
+			nBad++
+			small := &Case{ID: "cond", Kind: "conditions", Coe: true, Lines: []string{fmt.Sprintf("[%s] mkdir $WORK/mark_1", n), fmt.Sprintf("[!%s] mkdir $WORK/mark_2", n)}}
+			report(n, fmt.Sprintf("[%s] is %v", n, v), small)
 		}
 	}
-	if o.Verdict != "pass" {
-		rn.res.Notes = append(rn.res.Notes, "measuring the host conditions did not pass: "+o.Verdict+" "+tail(o.Log, 300))
+	// look-alikes: unknown conditions without Params.Condition ...
+	c2 := &Case{ID: "nearconds", Kind: "conditions", Coe: true}
+	for i, n := range nearCondNames {
+		c2.Lines = append(c2.Lines, fmt.Sprintf("[%s] mkdir $WORK/mark_%d", n, i+1))
+	}
+	dir = rn.freshDir(c2.ID)
+	o2 := runImpl(c2, dir)
+	cleanup(dir)
+	f2 := map[int]bool{}
+	for _, n := range o2.FailLines {
+		f2[n] = true
+	}
+	for i, n := range nearCondNames {
+		if rn.prop == "C01" {
+			rn.res.Count("conditions:look-alike-checked")
+			rn.res.Case("nearcond|"+n, true)
+		}
+		if !f2[i+1] && nBad < 8 {
+			nBad++
+			report(n, fmt.Sprintf("[%s] is not a predefined condition: unknown, the line fails", n),
+				&Case{ID: "cond", Kind: "conditions", Lines: []string{fmt.Sprintf("[%s] mkdir $WORK/mark_1", n)}})
+		}
+	}
+	// ... and questions for Params.Condition with it (which answers "true" here)
+	c3 := &Case{ID: "nearconds-custom", Kind: "conditions", Coe: true, HasCond: true, CondDflt: "t"}
+	c3.Lines = c2.Lines
+	dir = rn.freshDir(c3.ID)
+	o3 := runImpl(c3, dir)
+	cleanup(dir)
+	g3 := map[int]bool{}
+	for _, n := range markerLines(o3.Tree) {
+		g3[n] = true
+	}
+	for i, n := range nearCondNames {
+		if !g3[i+1] && nBad < 10 {
+			nBad++
+			report(n, fmt.Sprintf("[%s] is not a predefined condition: Params.Condition is asked (it says true)", n),
+				&Case{ID: "cond", Kind: "conditions", HasCond: true, CondDflt: "t", Lines: []string{fmt.Sprintf("[%s] mkdir $WORK/mark_1", n)}})
+		}
+	}
+	if o.Verdict != "pass" && len(o.FailLines) == 0 {
+		rn.res.Notes = append(rn.res.Notes, "the condition script did not run: "+o.Verdict+" "+tail(o.Log, 300))
 	}
 }
 
@@ -534,6 +613,9 @@ func loadCorpus(dir string) []*Case {
 				var c Case
 				if json.Unmarshal([]byte(rp.Violation.Input["case"]), &c) == nil {
 					c.ID, c.Note = "corpus-"+filepath.Base(e), filepath.Base(e)
+					if x := rp.Violation.Input["expect"]; x != "" {
+						c.Expect = x
+					}
 					out = append(out, &c)
 				}
 			}
@@ -603,8 +685,9 @@ func realMain() int {
 	defer m.Close()
 	helperDir = filepath.SplitList(os.Getenv("PATH"))[0]
 	rn := &runner{f: f, res: res, m: m, prop: prop}
+	initConds()
 	rn.measureHostConds()
-	res.Notes = append(res.Notes, fmt.Sprintf("host conditions measured on the implementation: %v", hostConds),
+	res.Notes = append(res.Notes, fmt.Sprintf("predefined conditions on this host (%s/%s, %s, %s) by the independent reading of doc.go, each checked on the implementation under both polarities: %d names", runtime.GOOS, runtime.GOARCH, runtime.Version(), runtime.Compiler, len(hostConds)),
 		fmt.Sprintf("euid=%d (permission bits are not enforced for root; the model does not enforce them either)", os.Geteuid()))
 
 	if f.Replay != "" {
@@ -725,7 +808,7 @@ func realMain() int {
 	rn.regexMain(r.Fork(), nRe)
 	// 3. the built cmd/testscript binary
 	rn.cliMain(r.Fork(), nBatch)
-	res.Rule = fmt.Sprintf("corpus (%d), %d constructive scripts of 1-25 lines built with the independent evaluator (planted failing line in ~60%%, stop/skip in ~25%%, all Params; 1/5 with a deadline never reached, 1/6 with a non-canonical script file), %d wild scripts over the whole vocabulary (model comparison only), %d scripts under a deadline that is reached while they block on the sleeping helper (foreground, negated, registered command, wait) plus controls, %d RunT calls over 2-4 scripts (sequential / parked / free-running T, with and without deadline, work directories kept and removed) each script compared with its run alone, %d batches through the built cmd/testscript binary; a case is non-trivial when it has >= 2 lines or does not pass; distinct = distinct (script, verdict, failing lines)", len(corpus), nCons, nWild, nDL, nBT, nBatch)
+	res.Rule = fmt.Sprintf("every predefined condition of a %d-name universe (GOOS, GOARCH, go1.N around and far from the toolchain's version, short net link symlink unix gc gccgo) under both polarities and %d look-alikes, on the implementation against an independent reading of doc.go; ", len(hostConds), len(nearCondNames)) + fmt.Sprintf("corpus (%d), %d constructive scripts of 1-25 lines built with the independent evaluator (planted failing line in ~60%%, stop/skip in ~25%%, all Params; guards from the whole condition universe; 1/3 with archive entry names spelled through $WORK / ${/} / $exe or not canonically, 1/14 with a name that leaves the work directory; registered commands returning negative and > 255 statuses through RunMain; programs that cannot be started with pending stdin carried across them; multi-operand exists; 1/5 with a deadline never reached, 1/6 with a non-canonical script file), %d wild scripts over the whole vocabulary (model comparison only), %d scripts under a deadline that is reached while they block on the sleeping helper (foreground, negated, registered command, wait) plus controls, %d RunT calls over 2-4 scripts (sequential / parked / free-running T, with and without deadline, work directories kept and removed) each script compared with its run alone, %d batches through the built cmd/testscript binary; a case is non-trivial when it has >= 2 lines or does not pass; distinct = distinct (script, verdict, failing lines)", len(corpus), nCons, nWild, nDL, nBT, nBatch)
 	res.Write(f.Out)
 	return 0
 }
